@@ -122,7 +122,9 @@ def cases(rng, tier):
     for alg in ("A128KW", "A256KW", "RSA-OAEP", "RSA1_5", "A128GCMKW", "A256GCMKW", "ECDH-ES+A128KW", "ECDH-ES+A256KW", "dir", "ECDH-ES"):
         for enc in (ENCS if tier != "quick" else ["A128CBC-HS256", "A256CBC-HS512", "A128GCM", "A256GCM"]):
             for nrec in ((1,) if alg in ("dir", "ECDH-ES") else (1, 2, 3)):
-                for aad in (None, b"extra authenticated data"):
+                for aad in (None, b"extra authenticated data", b""):
+                    if aad == b"" and (nrec != 1 or enc not in ("A128CBC-HS256", "A256GCM")):
+                        continue          # present-but-empty AAD: one recipient, two enc families
                     out.append({"t": "json", "alg": alg, "enc": enc, "nrec": nrec, "aad": None if aad is None else b64e(aad), "crv": CURVES[len(out) % 5],
                                 "enc_in": "protected" if len(out) % 3 else "unprotected", "zip": "DEF" if len(out) % 4 == 0 else None})
     # RSA1_5 with several recipients: a foreign encrypted key that the second recipient's key "decrypts" (implicit rejection)
